@@ -21,29 +21,41 @@ static void poly_case(void) {
   lp_polynomial_t* out = dk < 3 ? D : dk == 3 ? A : B;
   char dest[2] = { DK[dk], 0 };
   unsigned op = rnd(14);
+  /* sometimes the operands are external polynomials built under the previous variable order and the operation is the first call
+     that sees them after the order has been reversed (tokens and the twin are taken before the change) */
+  char* tokA = 0; char* tokB = 0; lp_polynomial_t* TA = 0;
+  if (nv > 1 && chance(12) && (op <= 5 || op == 8 || op == 9)) {
+    TA = lp_polynomial_new_copy(A);
+    lp_polynomial_set_external(A); lp_polynomial_set_external(B);
+    tokA = hp_tok(A); tokB = hp_tok(B);
+    hp_stale_begin();
+    if (D) lp_polynomial_ensure_order(D);
+  }
+#define PA() do { if (tokA) sb_str(tokA); else sb_poly(A); } while (0)
+#define PB() do { if (tokB) sb_str(tokB); else sb_poly(B); } while (0)
   switch (op) {
   case 0: case 1: case 2: {
     const char* nm = op == 0 ? "add" : op == 1 ? "sub" : "mul";
-    sb_begin("poly", nm); sb_sp(); hp_ring_token(ri); sb_sp(); sb_str(dest); sb_sp(); sb_poly(A); sb_sp(); sb_poly(B); sb_arrow();
+    sb_begin("poly", nm); sb_sp(); hp_ring_token(ri); sb_sp(); sb_str(dest); sb_sp(); PA(); sb_sp(); PB(); sb_arrow();
     if (op == 0) lp_polynomial_add(out, A, B); else if (op == 1) lp_polynomial_sub(out, A, B); else lp_polynomial_mul(out, A, B);
     sb_sp(); sb_poly(out); sb_emit();
     break; }
   case 3: {
     if (dk == 4) { out = A; dest[0] = 'a'; }
-    sb_begin("poly", "neg"); sb_sp(); hp_ring_token(ri); sb_sp(); sb_str(dest); sb_sp(); sb_poly(A); sb_arrow();
+    sb_begin("poly", "neg"); sb_sp(); hp_ring_token(ri); sb_sp(); sb_str(dest); sb_sp(); PA(); sb_arrow();
     lp_polynomial_neg(out, A); sb_sp(); sb_poly(out); sb_emit();
     break; }
   case 4: {
     if (dk == 4) { out = A; dest[0] = 'a'; }
     lp_integer_t c; lp_integer_construct(&c); hp_gen_coeff(&c, ri); if (chance(10)) lp_integer_assign_int(lp_Z, &c, 0);
-    sb_begin("poly", "mulint"); sb_sp(); hp_ring_token(ri); sb_sp(); sb_str(dest); sb_sp(); sb_poly(A); sb_sp(); sb_mpz(&c); sb_arrow();
+    sb_begin("poly", "mulint"); sb_sp(); hp_ring_token(ri); sb_sp(); sb_str(dest); sb_sp(); PA(); sb_sp(); sb_mpz(&c); sb_arrow();
     lp_polynomial_mul_integer(out, A, &c); sb_sp(); sb_poly(out); sb_emit();
     lp_integer_destruct(&c);
     break; }
   case 5: {
     if (dk == 4) { out = A; dest[0] = 'a'; }
     unsigned n = rnd(4);
-    sb_begin("poly", "pow"); sb_sp(); hp_ring_token(ri); sb_sp(); sb_str(dest); sb_sp(); sb_poly(A); sb_sp(); sb_ulong(n); sb_arrow();
+    sb_begin("poly", "pow"); sb_sp(); hp_ring_token(ri); sb_sp(); sb_str(dest); sb_sp(); PA(); sb_sp(); sb_ulong(n); sb_arrow();
     lp_polynomial_pow(out, A, n); sb_sp(); sb_poly(out); sb_emit();
     break; }
   case 6: case 7: { /* fused: S (+/-)= A*B ; S may alias A or B */
@@ -57,13 +69,13 @@ static void poly_case(void) {
     if (lp_polynomial_is_constant(A)) break;
     if (dk == 4) { out = A; dest[0] = 'a'; }
     unsigned n = rnd(4);
-    sb_begin("poly", "shl"); sb_sp(); hp_ring_token(ri); sb_sp(); sb_str(dest); sb_sp(); sb_poly(A); sb_sp(); sb_ulong(lp_polynomial_top_variable(A)); sb_sp(); sb_ulong(n); sb_arrow();
+    sb_begin("poly", "shl"); sb_sp(); hp_ring_token(ri); sb_sp(); sb_str(dest); sb_sp(); PA(); sb_sp(); sb_ulong(TA ? (unsigned long)hp_topvar_twin(TA) : lp_polynomial_top_variable(A)); sb_sp(); sb_ulong(n); sb_arrow();
     lp_polynomial_shl(out, A, n); sb_sp(); sb_poly(out); sb_emit();
     break; }
   case 9: { /* derivative in the main variable */
     if (dk == 4) { out = A; dest[0] = 'a'; }
-    long tv = lp_polynomial_is_constant(A) ? -1 : (long)lp_polynomial_top_variable(A);
-    sb_begin("poly", "deriv"); sb_sp(); hp_ring_token(ri); sb_sp(); sb_str(dest); sb_sp(); sb_poly(A); sb_sp(); sb_long(tv); sb_arrow();
+    long tv = lp_polynomial_is_constant(A) ? -1 : TA ? hp_topvar_twin(TA) : (long)lp_polynomial_top_variable(A);
+    sb_begin("poly", "deriv"); sb_sp(); hp_ring_token(ri); sb_sp(); sb_str(dest); sb_sp(); PA(); sb_sp(); sb_long(tv); sb_arrow();
     lp_polynomial_derivative(out, A); sb_sp(); sb_poly(out); sb_emit();
     break; }
   case 10: { /* cancellation followed by in-place growth: (A - A + small), then shl / add_monomial in place */
@@ -124,12 +136,14 @@ static void poly_case(void) {
     break; }
   }
   /* structural observers on every object the case touched: printing alone cannot see a non-canonical representation */
+  if (hp_stale_on) { hp_stale_end(); lp_polynomial_ensure_order(S); if (D) lp_polynomial_ensure_order(D); }   /* back to the order the observers assume */
   { lp_polynomial_t* objs[4] = { A, B, S, D };
     for (int k = 0; k < 4; ++k) { if (!objs[k]) continue;
       sb_begin("poly", "obs"); sb_sp(); hp_ring_token(ri); sb_sp(); sb_str("f"); sb_sp(); sb_poly(objs[k]); sb_arrow();
       sb_sp(); sb_long(lp_polynomial_is_zero(objs[k])); sb_sp(); sb_long(lp_polynomial_is_constant(objs[k])); sb_sp(); sb_ulong(lp_polynomial_degree(objs[k]));
       sb_sp(); if (lp_polynomial_is_constant(objs[k])) sb_str("-"); else sb_ulong(lp_polynomial_top_variable(objs[k]));
       sb_emit(); } }
+  hp_stale_end(); free(tokA); free(tokB); if (TA) lp_polynomial_delete(TA);
   lp_polynomial_delete(A); lp_polynomial_delete(B); lp_polynomial_delete(S); if (D) lp_polynomial_delete(D);
   /* c*x^n for every kind of c, including 0 and multiples of the modulus */
   if (chance(25)) {
